@@ -55,4 +55,7 @@ C10_PerLocalAddress == (J /\ Wld /\ T.usable) =>
 \* a tcp server that probes idle peers (keep-alive): a peer that stalls is dropped - and only that peer: the well-behaved
 \* one, idle meanwhile and answering its own probes, keeps its connection and its answers
 C10_StalledPeerAlone == (J /\ T.op = "kastall" /\ T.gBefore /\ T.xDropped) => (T.gDropped = 0 /\ ~T.gClosed /\ T.gAfter)
+\* ... and the arrival of other peers does not take a stalled peer out of the server's housekeeping: the one that stalled before
+\* the well-behaved peer arrived is dropped like the one that stalled after it
+C10_EveryStalledPeerDropped == (J /\ T.op = "kastall" /\ T.gBefore) => (T.xDropped /\ T.x0Dropped)
 =============================================================================
